@@ -130,6 +130,52 @@ def check_finish(db, chk):
     chk.sample({"finish_delete_update": {"intersection": at["ln"], "union": ot["ln"], "writes": [t["ln"] for _, t in wdf]}})
 
 
+def check_rewrite_selection(db, chk):
+    """Which fragments get their *current* deletion vector loaded, intersected with affected_rows and rewritten: exactly the ones
+    a concurrent transaction was found to touch (needs_rewrite).  The selection decides the row-level conflict check as well as
+    the rewrite, so nothing but the flag may take a flagged fragment out of it (e.g. "we remove that fragment anyway")."""
+    R = "DOM-rebase-rows"
+    f = db.one(r"^io::commit::conflict_resolver::TransactionRebase::<'a>::finish_delete_update$", file=matrix.RESOLVER)
+    sel = []
+    for g in f.family():
+        names = {l.get("name") for l in g.locals if l.get("name")}
+        if g.kind == "closure" and "needs_rewrite" in names and g.cfg.aggregates(adt="Option", variant="Some"):
+            sel.append(g)
+    if len(sel) != 1:
+        raise AnchorMissing("finish_delete_update: expected one closure selecting the fragments to rewrite by needs_rewrite, found %d" % len(sel))
+    g = sel[0]
+    chk.analysed(g)
+    c = g.cfg
+    nr = [i for i, l in enumerate(g.locals) if l.get("name") == "needs_rewrite"]
+    flag_sw = []
+    for b in sorted(c.reach0):
+        si = c.switch_info(b)
+        if not (si and si["kind"] == "bool"):
+            continue
+        p = op_place(c.blocks[b]["term"]["on"])
+        d = c.single_def(p[0]) if p and len(p) == 1 else None
+        if d and d[0] == "assign" and d[3]["rv"]["r"] == "use":
+            q = op_place(d[3]["rv"]["op"])
+            if q and q[0] in nr and all(e == "*" for e in q[1:]):
+                flag_sw.append(b)
+    ok = len(flag_sw) == 1
+    detail = "%d direct test(s) of *needs_rewrite" % len(flag_sw)
+    if ok:
+        w = flag_sw[0]
+
+        def ef(b):
+            return [c.switch_info(w)["label_to"][True]] if b == w else None
+        reach = c.reachable_from([0], include_start=True, edge_filter=ef)
+        nones = [i for i, j, s in c.aggregates(adt="Option", variant="None") if s["lhs"] == [0] and i in reach]
+        somes = [s for i, j, s in c.aggregates(adt="Option", variant="Some") if s["lhs"] == [0] and i in reach]
+        id_ok = bool(somes) and all(("field", "id") in c.op_origins(s["rv"]["ops"][0], transparent=lambda t: True) for s in somes)
+        ok = not nones and id_ok
+        detail = "a flagged fragment can be left out: %s; selects fragment.id: %s; looks at anything besides the map entry (captures): %s" % (
+            bool(nones), id_ok, [u["name"] for u in g.upvars] or "nothing")
+    chk.ob(R, "flagged=>checked-and-rewritten", ok,
+           "every fragment flagged needs_rewrite is selected for the row-level check and the deletion-file rewrite (%s)" % detail, g.loc())
+
+
 def check_producers(db, chk):
     R = "GATE-affected-rows"
     chk.rule(R, "row-level writers hand affected_rows to the commit and CommitBuilder forwards it")
@@ -157,5 +203,6 @@ def check_producers(db, chk):
 def run(db, chk):
     check_cells(db, chk)
     check_finish(db, chk)
+    check_rewrite_selection(db, chk)
     check_producers(db, chk)
     chk.assume("RowIdTreeMap &, | and len are the set operations they name (see C21)")
